@@ -76,6 +76,9 @@ func c04DB(symbolicTag bool) *Database {
 		mk("aa | ee", "bb", nil, true),
 		mk("aa ff", "bb", []string{"Darwin", "PowerShell"}, false),
 		mk("aa gg", "bb", []string{"MACOS"}, false),
+		// a recognised cross-platform tool listed before a plain command with the same tag list
+		mk("git aa ii", "bb", []string{"freebsd"}, false),
+		mk("aa jj", "bb", []string{"freebsd"}, false),
 	}
 	if symbolicTag {
 		tag := verifString("tag", 5)
@@ -158,4 +161,27 @@ func VerifHarness_C04_LegacyPipeline() {
 		}
 	}
 	verifReach("checked")
+}
+
+// cached answers: two requests through the cache layer whose filter options differ (or not);
+// the second answer must pass the filter of the second request
+func VerifHarness_C04_Cached() {
+	db := c04DB(false)
+	monitored := verifBool("monitored")
+	mdb := NewMonitoredDatabase(db)
+	o1 := SearchOptions{Limit: 20, NoCrossPlatform: verifBool("noCross1"), AllPlatforms: verifBool("all1")}
+	o2 := c04Options()
+	search := func(o SearchOptions) []SearchResult {
+		if monitored {
+			return mdb.SearchWithOptionsAndMonitoring("aa", o)
+		}
+		return mdb.SearchWithOptionsAndCache("aa", o)
+	}
+	c04Check(db, search(o1), o1, "cached, first request")
+	res := search(o2)
+	c04Check(db, res, o2, "cached, second request")
+	verifReach("checked")
+	if len(res) > 0 {
+		verifReach("nonempty")
+	}
 }
